@@ -21,7 +21,12 @@ func main() {
 	repo := flag.String("repo", "/repo", "repository root")
 	verif := flag.String("verif", "/verif", "verif dir")
 	debug := flag.String("debug", "", "roots|effects|sum:<func>")
+	variantIdx := flag.Int("variant", -1, "internal: run self-test variant i of -prop and print the verdict")
 	flag.Parse()
+	if *variantIdx >= 0 {
+		runVariant(*repo, *verif, *prop, *variantIdx)
+		return
+	}
 	seed := 0
 	if s := os.Getenv("VERIF_SEED"); s != "" {
 		seed, _ = strconv.Atoi(s)
@@ -65,6 +70,9 @@ func main() {
 		r := check.New(id, *tier)
 		r.Analysed["packages_loaded"] = len(p.Pkgs)
 		r.Analysed["functions_in_scope"] = len(w.Funcs)
+		if *tier == "thorough" {
+			r.AfterCheck = func() { selfTest(r, *repo, *verif, id) }
+		}
 		code := runOne(ck, &props.Ctx{W: w, R: r}, *verif, known, seed)
 		if code > exit {
 			exit = code
@@ -83,6 +91,9 @@ func runOne(ck props.Checker, c *props.Ctx, verif string, known []check.Known, s
 		}
 	}()
 	ck(c)
+	if c.R.AfterCheck != nil {
+		c.R.AfterCheck()
+	}
 	return c.R.Finish(verif, known, seed)
 }
 
